@@ -308,10 +308,11 @@ theorem finish_waiting {s : State} (hw : s.pending ≠ [] → s.lookup = true) (
   · simp only [Bool.false_eq_true, if_false]; intro hp; exact hw hp
   · simp
 
-/-- One step keeps "whoever waits, waits for a running lookup", given the environment
-assumption in the state the handler starts from. -/
-theorem waiting_lookup_step {s : State} (hs : Inv s) (henv : EnvOK s)
-    (hw : s.pending ≠ [] → s.lookup = true) (st : Step) :
+/-- One step keeps "whoever waits, waits for a running lookup"; the environment assumption is
+needed only in the state a `resolve` handler starts from. -/
+theorem waiting_lookup_step {s : State} (hs : Inv s) (st : Step)
+    (henv : (∃ addrs, st.op = .resolve addrs) → EnvOK s)
+    (hw : s.pending ≠ [] → s.lookup = true) :
     (step s st).1.pending ≠ [] → (step s st).1.lookup = true := by
   obtain ⟨op, order⟩ := st
   have im : ∀ addrs, (insertMultiple s addrs order).1.pending ≠ [] →
@@ -323,6 +324,7 @@ theorem waiting_lookup_step {s : State} (hs : Inv s) (henv : EnvOK s)
     · rename_i hc; simp only [hc]; exact ⟨h, rfl⟩
   cases op with
   | resolve addrs =>
+    have henv : EnvOK s := henv ⟨addrs, rfl⟩
     simp only [step]
     intro hp
     rw [triggerLookup_pending] at hp
@@ -399,7 +401,7 @@ theorem waiting_lookup_run {s : State} (hs : Inv s) (hw : s.pending ≠ [] → s
   induction h generalizing s with
   | nil => exact hw
   | cons st rest ih =>
-    exact ih (step_good hs st).inv (waiting_lookup_step hs henv.1 hw st) henv.2
+    exact ih (step_good hs st).inv (waiting_lookup_step hs st (fun _ => henv.1) hw) henv.2
 
 /-- **Whoever waits, waits for a running lookup** (under the environment assumption):
 so "the lookup eventually finishes" is all the progress a waiting request needs. -/
